@@ -109,6 +109,14 @@ theorem pulled_sublist_accepted {size : Nat} (h : 0 < size) (ops : List (Op α))
       (accepted ops (Rtsp.Ring.run (Rtsp.Ring.new size) ops).2) :=
   Rtsp.Ring.pulled_sublist_accepted h ops
 
+/-- **loss only when signalled**: with Close / Reset anywhere, every accepted item is — exactly
+once — pulled, or discarded by a Close / Reset, or still held -/
+theorem accounting {size : Nat} (h : 0 < size) (ops : List (Op α)) :
+    (accepted ops (Rtsp.Ring.run (Rtsp.Ring.new size) ops).2).Perm
+      (pulled (Rtsp.Ring.run (Rtsp.Ring.new size) ops).2 ++
+        (Fifo.discarded (Fifo.new size) ops ++ absItems (Rtsp.Ring.run (Rtsp.Ring.new size) ops).1)) :=
+  Rtsp.Ring.accounting h ops
+
 theorem executed_at_most_once {size : Nat} (h : 0 < size) (ops : List (Op α)) (hd : (pushes ops).Nodup) :
     (pulled (Rtsp.Ring.run (Rtsp.Ring.new size) ops).2).Nodup :=
   Rtsp.Ring.executed_at_most_once h ops hd
@@ -143,6 +151,8 @@ example : (Rtsp.Ring.run (Rtsp.Ring.new (α := Nat) 2) [.push 1, .push 2, .push 
 example : (Rtsp.Ring.run (Rtsp.Ring.new (α := Nat) 2) [.push 1, .close, .push 2, .push 3, .push 4, .pull, .reset, .push 5, .pull]).2 =
     [.pushed true, .done, .pushed true, .pushed true, .pushed false, .pulled .closed, .done, .pushed true,
      .pulled (.item 5)] := by decide
+-- test: what a Close discards
+example : Fifo.discarded (Fifo.new (α := Nat) 4) [.push 1, .push 2, .pull, .push 3, .close, .push 4, .reset, .push 5] = [2, 3, 4] := by decide
 -- test: the abstraction of a wrapped ring
 example : absItems (Rtsp.Ring.run (Rtsp.Ring.new (α := Nat) 4) [.push 1, .push 2, .push 3, .pull, .pull, .push 4, .push 5, .push 6]).1 =
     [3, 4, 5, 6] := by decide
